@@ -43,6 +43,13 @@ def string_cases(prog, cr, rule="R18.4"):
         def judge(o):
             st = o.state
             looks = [e for e in st.effects if e[0] == "symlookup" and getattr(e[1], "unit_values", False)]
+            import re as _re
+            for e in looks:
+                k = e[2]
+                if not (isinstance(k, StrV) and _re.fullmatch(r"part\d(\.[lr]?strip)*", k.tag or "")):
+                    return ("symbol text is transformed before the directory lookup",
+                            f"lookup key {k!r}: str(q) prints the registered symbol itself, so the reader must look up "
+                            f"the (stripped) text after the first blank unchanged")
             has_symbol = bool(looks)
             sym_found = any(e[3] for e in looks)
             parses = [e for e in st.effects if e[0] == "parsed"]
